@@ -859,9 +859,25 @@ def report(ctx, stream, fi, data, gd, ops, bad, fresh, only=None, exclude=()):
     def fails(cand):
         b, _, _ = run_history(data, cand, fresh)
         return bool(sel(b))
-    small = shrink(data, ops[:bad[0]['i'] + 1], fails)
+    # Confirm before reporting: every op runs under a wall-clock guard (`guarded`), so on a heavily loaded machine a
+    # stalled op can surface once as `other:OpTimeout` and differ from the fresh answer.  A history is reported only if
+    # it fails again when re-run (the library and the harness are deterministic: a real defect does).
+    orig = ops[:bad[0]['i'] + 1]
+    if not fails(orig):
+        ctx.out.count('unconfirmed-history')
+        ctx.out.notes.append('%s: a difference in %r did not reproduce on re-run (first: %r); not reported' % (
+            stream, orig[-3:], {k: str(v)[:80] for k, v in bad[0].items() if k in ('live', 'fresh')}))
+        return
+    small = shrink(data, orig, fails)
     b2, _, _ = run_history(data, small, fresh)
     b2 = sel(b2)
+    if not b2:
+        small = orig
+        b2, _, _ = run_history(data, small, fresh)
+        b2 = sel(b2)
+        if not b2:
+            ctx.out.count('unconfirmed-history')
+            return
     case = {'file': fi, 'ops': small, 'bad': [{'i': x['i'], 'op': x['op']} for x in b2], 'define_file': bool(gd.get('define_file')),
             'original_len': len(ops)}
     ctx.out.violation('property', stream, case, expect=b2[0]['fresh'] if b2 else None, got=b2[0]['live'] if b2 else None)
@@ -1075,8 +1091,10 @@ def run_exh(ctx, depth, nalpha=None):
                     trans.add((prev, seq[i]))
                     prev = h
                 if bad:
+                    n0 = len(ctx.out.violations)
                     report(ctx, 'exh', fi, data, gd, ops, bad, fresh)
-                    return
+                    if len(ctx.out.violations) > n0:
+                        return
         # the Lean step on every sequence of the full depth would repeat the prefixes: run it on the longest ones only
         rng = ctx.rng('exh-model/%d' % k)
         for _ in range(ctx.budget(60, 1500)):
